@@ -1,0 +1,82 @@
+/*!
+Seams for deterministic simulation (only compiled with `--cfg jiff_verif`).
+
+This module is not part of Jiff's API. It exists so that an external harness
+can take control of the three sources of nondeterminism that Jiff's time zone
+database caches depend on: the monotonic clock used for cache expiration, the
+order in which threads acquire the cache locks and the points at which file
+system accesses happen relative to other threads.
+
+When no hooks are installed, every function in this module is a no-op, and
+Jiff behaves exactly as it does without `--cfg jiff_verif`.
+*/
+
+use std::sync::{OnceLock, RwLock, TryLockError};
+
+/// The table of callbacks a simulation harness installs.
+#[derive(Clone, Copy, Debug)]
+pub struct Hooks {
+    /// Called at every named scheduling point.
+    pub point: fn(&'static str),
+    /// Called when the lock that is about to be acquired at the named site
+    /// is currently held in an incompatible mode. The callback must let some
+    /// other thread make progress and then return, at which point acquisition
+    /// is attempted again.
+    pub blocked: fn(&'static str),
+    /// Overrides the monotonic clock. `None` means "no override." `Some(None)`
+    /// means "this platform has no monotonic clock."
+    pub monotonic: fn() -> Option<Option<std::time::Instant>>,
+}
+
+static HOOKS: OnceLock<Hooks> = OnceLock::new();
+
+/// Install hooks for the lifetime of the process.
+///
+/// Returns false if hooks were already installed.
+pub fn install(hooks: Hooks) -> bool {
+    HOOKS.set(hooks).is_ok()
+}
+
+/// A named scheduling point.
+#[inline]
+pub(crate) fn point(site: &'static str) {
+    if let Some(hooks) = HOOKS.get() {
+        (hooks.point)(site);
+    }
+}
+
+/// Returns the simulated monotonic time, if there is one.
+#[inline]
+pub(crate) fn monotonic_override() -> Option<Option<std::time::Instant>> {
+    HOOKS.get().and_then(|hooks| (hooks.monotonic)())
+}
+
+/// Called immediately before `lock.read()`.
+///
+/// This is a scheduling point. It returns only once a read lock could be
+/// acquired without blocking, so that the real acquisition that follows never
+/// blocks the (single) OS thread a simulation runs on.
+pub(crate) fn acquire_read<T>(lock: &RwLock<T>, site: &'static str) {
+    let Some(hooks) = HOOKS.get() else { return };
+    (hooks.point)(site);
+    loop {
+        match lock.try_read() {
+            Err(TryLockError::WouldBlock) => (hooks.blocked)(site),
+            // A poisoned lock is reported by the real acquisition.
+            Ok(_) | Err(TryLockError::Poisoned(_)) => return,
+        }
+    }
+}
+
+/// Called immediately before `lock.write()`. See `acquire_read`.
+pub(crate) fn acquire_write<T>(lock: &RwLock<T>, site: &'static str) {
+    let Some(hooks) = HOOKS.get() else { return };
+    (hooks.point)(site);
+    loop {
+        match lock.try_write() {
+            Err(TryLockError::WouldBlock) => (hooks.blocked)(site),
+            // A poisoned lock is reported by the real acquisition.
+            Ok(_) | Err(TryLockError::Poisoned(_)) => return,
+        }
+    }
+}
